@@ -145,6 +145,22 @@ static void record_split(const unsigned char *text, int len, int fl, int depth, 
 #define MAXTEXT 70000
 static unsigned char T[MAXTEXT];
 static int TL;
+/* metadata of the last generated document (for C16 injections) */
+#define MAXTOK 4000
+enum { TK_STR, TK_KEY, TK_INT, TK_DBL, TK_LIT, TK_OPEN, TK_CLOSE_NONEMPTY, TK_CLOSE_EMPTY, TK_PUNCT };
+static struct { int kind, start, end, plain; } tokv[MAXTOK];
+static int ntok;
+static void tok_add(int kind, int start, int end, int plain)
+{
+	if (ntok < MAXTOK)
+	{
+		tokv[ntok].kind = kind;
+		tokv[ntok].start = start;
+		tokv[ntok].end = end;
+		tokv[ntok].plain = plain;
+		ntok++;
+	}
+}
 static void putc_(int c)
 {
 	if (TL < MAXTEXT - 1)
@@ -162,8 +178,12 @@ static void ws(void)
 	while (n--)
 		putc_(w[vh_below(4)]);
 }
-static void gen_string(void)
+static int gen_plain_pos;
+static int allow_nul_names = 1; /* member names with an escaped U+0000 (known finding D01a) only where C01 looks */
+static void gen_string_k(int kind)
 {
+	int start = TL;
+	gen_plain_pos = -1;
 	putc_('"');
 	int n = (int)vh_below(vh_below(4) ? 6 : 20);
 	for (int i = 0; i < n; i++)
@@ -178,7 +198,10 @@ static void gen_string(void)
 		{
 			char b[8];
 			static const unsigned cu[] = {0x0000, 0x0001, 0x001f, 0x0041, 0x007f, 0x0080, 0x07ff, 0x0800, 0xd7ff, 0xe000, 0xfffd, 0xffff, 0x00e9};
-			snprintf(b, sizeof b, vh_below(2) ? "\\u%04x" : "\\u%04X", cu[vh_below(13)]);
+			unsigned u = cu[vh_below(13)];
+			if (u == 0 && kind == TK_KEY && !allow_nul_names)
+				u = 1;
+			snprintf(b, sizeof b, vh_below(2) ? "\\u%04x" : "\\u%04X", u);
 			puts_(b);
 			break;
 		}
@@ -199,12 +222,14 @@ static void gen_string(void)
 		case 6: putc_(0xc3); putc_(0xa9); break;                   /* 2-byte UTF-8 */
 		case 7: putc_(0xe2); putc_(0x82); putc_(0xac); break;      /* 3-byte */
 		case 8: putc_(0xf0); putc_(0x9f); putc_(0x98); putc_(0x80); break; /* 4-byte */
-		case 9: putc_(' '); break;
-		default: putc_("abcxyz019_-{}[],:'/*"[vh_below(20)]); break;
+		case 9: gen_plain_pos = TL; putc_(' '); break;
+		default: gen_plain_pos = TL; putc_("abcxyz019_-{}[],:'/*"[vh_below(20)]); break;
 		}
 	}
 	putc_('"');
+	tok_add(kind, start, TL, gen_plain_pos);
 }
+static void gen_string(void) { gen_string_k(TK_STR); }
 static void gen_number(void)
 {
 	static const char *edge[] = {"0", "-0", "1", "-1", "2147483647", "2147483648", "-2147483648", "-2147483649",
@@ -214,11 +239,15 @@ static void gen_number(void)
 	                             "0.5", "-0.0", "1e400", "1E-400", "1.5e+20", "0e0", "1.0", "10.25e-3", "4.9e-324", "1.7976931348623157e308",
 	                             "0.1", "100", "1e2", "1E+2", "2.5E-1"};
 	uint32_t r = vh_below(10);
+	int start = TL;
 	if (r < 4)
 	{
-		puts_(edge[vh_below(sizeof edge / sizeof *edge)]);
+		const char *e = edge[vh_below(sizeof edge / sizeof *edge)];
+		puts_(e);
+		tok_add(strpbrk(e, ".eE") ? TK_DBL : TK_INT, start, TL, strpbrk(e, "eE") ? 1 : 0);
 		return;
 	}
+	int isd = 0, hasexp = 0;
 	if (vh_below(3) == 0)
 		putc_('-');
 	if (vh_below(6) == 0)
@@ -232,6 +261,7 @@ static void gen_number(void)
 	}
 	if (vh_below(3) == 0)
 	{
+		isd = 1;
 		putc_('.');
 		int n = 1 + (int)vh_below(6);
 		while (n--)
@@ -239,6 +269,7 @@ static void gen_number(void)
 	}
 	if (vh_below(4) == 0)
 	{
+		isd = hasexp = 1;
 		putc_(vh_below(2) ? 'e' : 'E');
 		if (vh_below(2))
 			putc_(vh_below(2) ? '+' : '-');
@@ -246,6 +277,7 @@ static void gen_number(void)
 		while (n--)
 			putc_('0' + (int)vh_below(10));
 	}
+	tok_add(isd ? TK_DBL : TK_INT, start, TL, hasexp);
 }
 static void gen_value(int depth, int budget)
 {
@@ -253,42 +285,56 @@ static void gen_value(int depth, int budget)
 	uint32_t r = vh_below(depth <= 0 || budget <= 1 ? 6 : 10);
 	switch (r)
 	{
-	case 0: puts_("null"); break;
-	case 1: puts_(vh_below(2) ? "true" : "false"); break;
+	case 0: tok_add(TK_LIT, TL, TL + 4, 0); puts_("null"); break;
+	case 1: if (vh_below(2)) { tok_add(TK_LIT, TL, TL + 4, 0); puts_("true"); } else { tok_add(TK_LIT, TL, TL + 5, 0); puts_("false"); } break;
 	case 2: case 3: gen_number(); break;
 	case 4: case 5: gen_string(); break;
 	case 6: case 7:
 	{
+		tok_add(TK_OPEN, TL, TL + 1, 0);
 		putc_('[');
 		int n = (int)vh_below(budget > 5 ? 5 : (uint32_t)budget);
 		for (int i = 0; i < n; i++)
 		{
 			if (i)
+			{
+				tok_add(TK_PUNCT, TL, TL + 1, 0);
 				putc_(',');
+			}
 			gen_value(depth - 1, budget / (n ? n : 1));
 		}
 		ws();
+		tok_add(n ? TK_CLOSE_NONEMPTY : TK_CLOSE_EMPTY, TL, TL + 1, 0);
 		putc_(']');
 		break;
 	}
 	default:
 	{
+		tok_add(TK_OPEN, TL, TL + 1, 0);
 		putc_('{');
 		int n = (int)vh_below(budget > 5 ? 5 : (uint32_t)budget);
 		for (int i = 0; i < n; i++)
 		{
 			if (i)
+			{
+				tok_add(TK_PUNCT, TL, TL + 1, 0);
 				putc_(',');
+			}
 			ws();
 			if (vh_below(5) == 0)
+			{
+				tok_add(TK_KEY, TL, TL + 5, TL + 2);
 				puts_("\"dup\""); /* duplicate member names */
+			}
 			else
-				gen_string();
+				gen_string_k(TK_KEY);
 			ws();
+			tok_add(TK_PUNCT, TL, TL + 1, 0);
 			putc_(':');
 			gen_value(depth - 1, budget / (n ? n : 1));
 		}
 		ws();
+		tok_add(n ? TK_CLOSE_NONEMPTY : TK_CLOSE_EMPTY, TL, TL + 1, 0);
 		putc_('}');
 		break;
 	}
@@ -299,6 +345,7 @@ static void gen_value(int depth, int budget)
 static void gen_doc(int depth, int budget)
 {
 	TL = 0;
+	ntok = 0;
 	gen_value(depth, budget);
 }
 static void mutate(void)
@@ -677,8 +724,419 @@ static int reuse_enum(int argc, char **argv)
 	return 0;
 }
 
+/* -------------------------------------------------------------------------------- C01 valid */
+#include <locale.h>
+#include <math.h>
+static int doubles_ok(json_object *o)
+{
+	/* every double node holds strtod_C(its retained text): json-c handed strtod the exact token */
+	if (!o)
+		return 1;
+	switch (json_object_get_type(o))
+	{
+	case json_type_double:
+	{
+		const char *t = json_object_to_json_string_ext(o, JSON_C_TO_STRING_PLAIN);
+		double d = json_object_get_double(o);
+		if (!strcmp(t, "NaN"))
+			return isnan(d);
+		if (!strcmp(t, "Infinity") || !strcmp(t, "-Infinity"))
+			return isinf(d) && (t[0] == '-') == (d < 0);
+		char *end;
+		double r = strtod(t, &end);
+		return *end == 0 && memcmp(&r, &d, sizeof d) == 0;
+	}
+	case json_type_array:
+		for (size_t i = 0; i < json_object_array_length(o); i++)
+			if (!doubles_ok(json_object_array_get_idx(o, i)))
+				return 0;
+		return 1;
+	case json_type_object:
+	{
+		json_object_object_foreach(o, k, v)
+		{
+			(void)k;
+			if (!doubles_ok(v))
+				return 0;
+		}
+		return 1;
+	}
+	default: return 1;
+	}
+}
+/* parse T[0..TL) + NUL terminator in one call; event "parse" */
+static void record_parse(const char *ev, int fl, int depth, const int *cuts, int ncuts)
+{
+	json_tokener *t = json_tokener_new_ex(depth);
+	json_tokener_set_flags(t, flags_of(fl));
+	int n = TL;
+	T[n] = 0;
+	outcome o = run_chunked(t, T, n + 1, cuts, ncuts);
+	ev_begin(ev);
+	ev_bytes("text", T, (size_t)n);
+	ev_int("fl", fl);
+	ev_int("depth", depth);
+	long long c[8];
+	for (int i = 0; i < ncuts && i < 8; i++)
+		c[i] = cuts[i];
+	ev_ints("cuts", c, (size_t)(ncuts < 8 ? ncuts : 8));
+	ev_outcome("got", &o);
+	ev_bool("dbl_ok", o.err != json_tokener_success || doubles_ok(o.val));
+	ev_end();
+	drop(&o);
+	json_tokener_free(t);
+}
+static int valid_drive(int start, int nexec)
+{
+	const char *seed = getenv("VERIF_SEED");
+	uint64_t s0 = seed ? strtoull(seed, 0, 10) : 1;
+	for (int x = start; x < nexec; x++)
+	{
+		vh_srand(s0 * 1000003ull + (uint64_t)x);
+		ev_begin("new");
+		ev_end();
+		int deep = vh_below(8) == 0;
+		gen_doc(deep ? 20 + (int)vh_below(11) : 2 + (int)vh_below(5), deep ? 60 : 4 + (int)vh_below(40));
+		record_parse("parse", 0, 32, NULL, 0);
+		record_parse("parse", 1, 32, NULL, 0);
+	}
+	return 0;
+}
+/* every single \uXXXX code unit in [lo,hi), and surrogate combinations */
+static int valid_escapes(int lo, int hi, int stride)
+{
+	ev_begin("new");
+	ev_end();
+	for (int u = lo; u < hi; u += stride)
+	{
+		char b[40];
+		TL = snprintf(b, sizeof b, (u & 1) ? "\"\\u%04x\"" : "\"\\u%04X\"", (unsigned)u);
+		memcpy(T, b, (size_t)TL);
+		record_parse("parse", u & 1, 32, NULL, 0);
+	}
+	return 0;
+}
+static int valid_pairs(int n, int exhaustive_hi)
+{
+	/* exhaustive_hi >= 0: all 1024 lows for that one high; else n random combinations */
+	ev_begin("new");
+	ev_end();
+	for (int i = 0; i < n; i++)
+	{
+		char b[64];
+		unsigned hi = exhaustive_hi >= 0 ? 0xd800u + (unsigned)exhaustive_hi : 0xd800u + vh_below(0x400);
+		unsigned lo = exhaustive_hi >= 0 ? 0xdc00u + (unsigned)i : 0xdc00u + vh_below(0x400);
+		switch (exhaustive_hi >= 0 ? 0 : vh_below(8))
+		{
+		case 1: TL = snprintf(b, sizeof b, "\"\\u%04x\\u%04x\"", hi, hi); break;                 /* high high */
+		case 2: TL = snprintf(b, sizeof b, "\"\\u%04x\\u%04x\"", lo, hi); break;                 /* low high */
+		case 3: TL = snprintf(b, sizeof b, "\"\\u%04xx\\u%04x\"", hi, lo); break;                /* high, plain, low */
+		case 4: TL = snprintf(b, sizeof b, "\"\\u%04x\\t\\u%04x\"", hi, lo); break;              /* high, escape, low */
+		case 5: TL = snprintf(b, sizeof b, "\"\\u%04x\\u%04x\\u%04x\"", hi, hi, lo); break;      /* high high low */
+		case 6: TL = snprintf(b, sizeof b, "{\"\\u%04x\\u%04x\":\"\\u%04x\"}", hi, lo, hi); break; /* in a name */
+		default: TL = snprintf(b, sizeof b, "\"\\u%04x\\u%04x\"", hi, lo); break;
+		}
+		memcpy(T, b, (size_t)TL);
+		record_parse("parse", i & 1, 32, NULL, 0);
+	}
+	return 0;
+}
+
+/* -------------------------------------------------------------------------------- C15 depth */
+static void nest_doc(int levels, int mix, int leaf)
+{
+	/* `levels` containers around one innermost value (or an empty container when leaf = 0) */
+	TL = 0;
+	ntok = 0;
+	char kinds[4096];
+	for (int i = 0; i < levels; i++)
+	{
+		kinds[i] = mix == 0 ? '[' : mix == 1 ? '{' : (vh_below(2) ? '[' : '{');
+		if (vh_below(4) == 0)
+			putc_(' ');
+		if (kinds[i] == '[')
+		{
+			putc_('[');
+			if (vh_below(3) == 0 && i + 1 < levels)
+				puts_("1,"); /* the deep value is not the first element */
+		}
+		else
+		{
+			puts_("{");
+			if (vh_below(3) == 0 && i + 1 < levels)
+				puts_("\"p\":null,");
+			puts_("\"a\":");
+		}
+	}
+	switch (leaf)
+	{
+	case 0: /* innermost container empty: remove the pending member of an object */
+		if (levels && kinds[levels - 1] == '{')
+			TL -= 4;
+		break;
+	case 1: puts_("1"); break;
+	case 2: puts_("\"s\""); break;
+	default: puts_("null"); break;
+	}
+	for (int i = levels - 1; i >= 0; i--)
+	{
+		if (vh_below(3) == 0 && i + 1 < levels)
+			puts_(kinds[i] == '[' ? ",2" : ",\"z\":[]");
+		putc_(kinds[i] == '[' ? ']' : '}');
+	}
+}
+static int depth_drive(int start, int nexec)
+{
+	allow_nul_names = 0;
+	const char *seed = getenv("VERIF_SEED");
+	uint64_t s0 = seed ? strtoull(seed, 0, 10) : 1;
+	for (int x = start; x < nexec; x++)
+	{
+		vh_srand(s0 * 1000003ull + (uint64_t)x);
+		ev_begin("new");
+		ev_end();
+		int D = x % 41 == 0 ? 32 : 1 + x % 40;
+		/* documents with maximal nesting D-2 .. D+3 (the innermost value is enclosed by `levels` containers) */
+		for (int delta = -2; delta <= 3; delta++)
+		{
+			int levels = D - 1 + delta;
+			if (levels < 1)
+				continue;
+			nest_doc(levels, (int)vh_below(3), (int)vh_below(4));
+			int cuts[4], nc = vh_below(2) ? rand_cuts(TL + 1, cuts, 3) : 0;
+			record_parse("depth", (int)vh_below(2), D, cuts, nc);
+		}
+		/* a generated document against a small limit */
+		gen_doc(6, 30);
+		record_parse("depth", 0, 1 + (int)vh_below(6), NULL, 0);
+	}
+	return 0;
+}
+/* hostile input: K openers, never closed.  The parser must stop at the limit and use no more memory for larger K */
+static int depth_hostile(void)
+{
+	ev_begin("new");
+	ev_end();
+	static const int Ds[] = {1, 2, 3, 5, 8, 32, 40};
+	for (unsigned di = 0; di < sizeof Ds / sizeof *Ds; di++)
+		for (int pat = 0; pat < 2; pat++)
+		{
+			int D = Ds[di];
+			ev_begin("hostile");
+			ev_int("D", D);
+			ev_int("pat", pat);
+			ev_open_arr("runs");
+			int Ks[] = {D, D + 1, 2 * D + 1, 10 * D, 1000, 100000};
+			for (unsigned ki = 0; ki < 6; ki++)
+			{
+				int K = Ks[ki];
+				size_t unit = pat == 0 ? 1 : 5;
+				unsigned char *buf = malloc(K * unit + 1);
+				for (int i = 0; i < K; i++)
+					if (pat == 0)
+						buf[i] = '[';
+					else
+						memcpy(buf + i * 5, "{\"a\":", 5);
+				json_tokener *t = json_tokener_new_ex(D);
+				long live0 = vh_live;
+				vh_peak_live = vh_live;
+				json_object *o = json_tokener_parse_ex(t, (const char *)buf, (int)(K * unit));
+				ev_open_obj(NULL);
+				ev_int("K", K);
+				ev_str("st", errname(json_tokener_get_error(t)));
+				ev_int("end", (long long)json_tokener_get_parse_end(t));
+				ev_int("peak", vh_peak_live - live0);
+				ev_close_obj();
+				if (o)
+					json_object_put(o);
+				json_tokener_free(t);
+				free(buf);
+			}
+			ev_close_arr();
+			ev_end();
+		}
+	static const int bad[] = {0, -1, -32, INT_MIN + 1};
+	for (int i = 0; i < 4; i++)
+	{
+		json_tokener *t = json_tokener_new_ex(bad[i]);
+		ev_begin("newex");
+		ev_int("D", bad[i] < -1000 ? -1000 : bad[i]);
+		ev_bool("refused", t == NULL);
+		ev_end();
+		if (t)
+			json_tokener_free(t);
+	}
+	return 0;
+}
+
+/* -------------------------------------------------------------------------------- C16 inject */
+static unsigned char O[MAXTEXT], Q[MAXTEXT];
+static int OL, QL;
+static void splice(int at, int del, const char *ins, int inslen)
+{
+	/* T := O with `del` bytes at `at` replaced by ins */
+	memcpy(T, O, (size_t)at);
+	memcpy(T + at, ins, (size_t)inslen);
+	memcpy(T + at + inslen, O + at + del, (size_t)(OL - at - del));
+	TL = OL - del + inslen;
+}
+static void three_runs(const char *kind, int pos)
+{
+	unsigned char X[MAXTEXT];
+	int XL = TL;
+	memcpy(X, T, (size_t)TL);
+	outcome r[3];
+	for (int f = 0; f < 3; f++)
+	{
+		json_tokener *t = json_tokener_new_ex(32);
+		json_tokener_set_flags(t, flags_of(f == 0 ? 1 : f == 1 ? 2 : 0));
+		X[XL] = 0;
+		r[f] = run_chunked(t, X, XL + 1, NULL, 0);
+		json_tokener_free(t);
+	}
+	ev_begin("inject");
+	ev_str("kind", kind);
+	ev_int("pos", pos);
+	ev_bytes("orig", O, (size_t)OL);
+	ev_bytes("equiv", Q, (size_t)QL);
+	ev_bytes("text", X, (size_t)XL);
+	ev_outcome("strict", &r[0]);
+	ev_outcome("trail", &r[1]);
+	ev_outcome("deflt", &r[2]);
+	ev_end();
+	for (int f = 0; f < 3; f++)
+		drop(&r[f]);
+}
+static int inject_drive(int start, int nexec)
+{
+	allow_nul_names = 0;
+	const char *seed = getenv("VERIF_SEED");
+	uint64_t s0 = seed ? strtoull(seed, 0, 10) : 1;
+	for (int x = start; x < nexec; x++)
+	{
+		vh_srand(s0 * 1000003ull + (uint64_t)x);
+		ev_begin("new");
+		ev_end();
+		gen_doc(2 + (int)vh_below(4), 4 + (int)vh_below(16));
+		OL = TL;
+		memcpy(O, T, (size_t)TL);
+		memcpy(Q, O, (size_t)OL);
+		QL = OL;
+		/* comments at EVERY token boundary (before each token, and after the last) */
+		for (int i = 0; i <= ntok; i++)
+		{
+			int at = i < ntok ? tokv[i].start : OL;
+			const char *cm = vh_below(2) ? "/* c */" : "// c\n";
+			splice(at, 0, cm, (int)strlen(cm));
+			three_runs("comment", at);
+		}
+		for (int i = 0; i < ntok; i++)
+		{
+			int st = tokv[i].start, en = tokv[i].end;
+			memcpy(Q, O, (size_t)OL);
+			QL = OL;
+			switch (tokv[i].kind)
+			{
+			case TK_STR:
+			case TK_KEY:
+			{
+				int clean = 1;
+				for (int j = st + 1; j < en - 1; j++)
+					if (O[j] == '\'' || O[j] == '"')
+						clean = 0;
+				if (clean)
+				{
+					memcpy(T, O, (size_t)OL);
+					TL = OL;
+					T[st] = '\'';
+					T[en - 1] = '\'';
+					three_runs(tokv[i].kind == TK_KEY ? "single_quote_name" : "single_quote", st);
+				}
+				if (tokv[i].plain > 0)
+				{
+					/* a raw control character instead of a plain one; the RFC spelling of the same string uses \u00XX */
+					static const char ctl[] = {1, 9, 10, 13, 31, 8};
+					char ch = ctl[vh_below(6)];
+					char esc[8];
+					snprintf(esc, sizeof esc, "\\u%04x", ch);
+					splice(tokv[i].plain, 1, &ch, 1);
+					memcpy(Q, O, (size_t)tokv[i].plain);
+					memcpy(Q + tokv[i].plain, esc, 6);
+					memcpy(Q + tokv[i].plain + 6, O + tokv[i].plain + 1, (size_t)(OL - tokv[i].plain - 1));
+					QL = OL + 5;
+					three_runs(tokv[i].kind == TK_KEY ? "raw_control_name" : "raw_control", tokv[i].plain);
+				}
+				break;
+			}
+			case TK_INT:
+			{
+				int d0 = st + (O[st] == '-');
+				const char *z = vh_below(2) ? "0" : "00";
+				splice(d0, 0, z, (int)strlen(z));
+				three_runs("leading_zero", d0);
+				break;
+			}
+			case TK_DBL:
+				if (!tokv[i].plain) /* no exponent yet */
+				{
+					static const char *tails[] = {"e", "E", "e+", "e-", "E+"};
+					const char *tl = tails[vh_below(5)];
+					splice(en, 0, tl, (int)strlen(tl));
+					three_runs("dangling_exponent", en);
+				}
+				break;
+			case TK_LIT:
+			{
+				memcpy(T, O, (size_t)OL);
+				TL = OL;
+				int any = 0;
+				for (int j = st; j < en; j++)
+					if (vh_below(2) || (j == en - 1 && !any))
+					{
+						T[j] = (unsigned char)(T[j] - 32);
+						any = 1;
+					}
+				three_runs("literal_case", st);
+				break;
+			}
+			case TK_CLOSE_NONEMPTY:
+				splice(st, 0, ",", 1);
+				three_runs(O[st] == ']' ? "trailing_comma_array" : "trailing_comma_object", st);
+				break;
+			default: break;
+			}
+		}
+		/* trailing non-white-space after the value */
+		memcpy(Q, O, (size_t)OL);
+		QL = OL;
+		{
+			static const char *tr[] = {"x", " x", "]", " 1", "\n{}", ",", "\"", " null"};
+			const char *t = tr[vh_below(8)];
+			/* a top-level number or literal needs a delimiter before the garbage, else it is another token */
+			int bare = ntok == 1 && (tokv[0].kind == TK_INT || tokv[0].kind == TK_DBL || tokv[0].kind == TK_LIT);
+			char buf[16];
+			snprintf(buf, sizeof buf, "%s%s", bare && t[0] != ' ' && t[0] != '\n' ? " " : "", t);
+			splice(OL, 0, buf, (int)strlen(buf));
+			three_runs("trailing_chars", OL);
+		}
+	}
+	return 0;
+}
+
 int tok_main(int argc, char **argv)
 {
+	if (argc >= 3 && !strcmp(argv[0], "valid-drive"))
+		return valid_drive(atoi(argv[1]), atoi(argv[2]));
+	if (argc >= 4 && !strcmp(argv[0], "valid-escapes"))
+		return valid_escapes(atoi(argv[1]), atoi(argv[2]), atoi(argv[3]));
+	if (argc >= 3 && !strcmp(argv[0], "valid-pairs"))
+		return valid_pairs(atoi(argv[1]), atoi(argv[2]));
+	if (argc >= 3 && !strcmp(argv[0], "depth-drive"))
+		return depth_drive(atoi(argv[1]), atoi(argv[2]));
+	if (argc >= 1 && !strcmp(argv[0], "depth-hostile"))
+		return depth_hostile();
+	if (argc >= 3 && !strcmp(argv[0], "inject-drive"))
+		return inject_drive(atoi(argv[1]), atoi(argv[2]));
 	if (argc >= 3 && !strcmp(argv[0], "reuse-drive"))
 		return reuse_drive(atoi(argv[1]), atoi(argv[2]));
 	if (argc >= 5 && !strcmp(argv[0], "reuse-enum"))
